@@ -4,7 +4,7 @@
    Positions are exact rationals, vertex ids are Z.  The only inexact float operation whose
    result feeds a comparison is `dy * 0.1` (sides_are_close): it is modelled with F32.f32_round. *)
 From Coq Require Import QArith Qminmax.
-From LV Require Import Base.Prelude Base.F32 Model.Bezier.
+From LV Require Import Base.Prelude Base.F32 Gen.Constants Model.Bezier.
 Open Scope Q_scope.
 
 Record mv := mkMV { m_pos : qpt; m_id : Z; m_left : bool }.     (* MonotoneVertex; side = Left <-> m_left *)
@@ -165,7 +165,8 @@ Definition adv_vertex (a : advanced) (pos : qpt) (id : Z) (left : bool) : advanc
   let dx := se_cref_x (a_right a1) - se_cref_x (a_left a1) in
   let '(side_ev, opp_ev) := if left then (a_left a1, a_right a1) else (a_right a1, a_left a1) in
   let dy := py pos - py (se_ref side_ev) in
-  let sides_are_close := Qltb dx (f32_round (dy * f32_0_1)) in
+  (* dy * 0.1 in f32: the literal (regenerated from monotone.rs) is rounded to f32, then the product *)
+  let sides_are_close := Qltb dx (f32_round (dy * f32_round sides_are_close_factor)) in
   let len := length (se_events side_ev) in
   let outward_turn :=
     if negb sides_are_close && Nat.leb 2 len then
